@@ -262,6 +262,15 @@ func (tr *FnTr) instr(in ssa.Instruction) {
 		v := Val{T: x.Type(), L: []*Term{Int(tr.eng.funcID(x.Fn.(*ssa.Function)))}}
 		tr.env[x] = v
 	case *ssa.MakeMap, *ssa.MakeChan:
+		if mm, ok := x.(*ssa.MakeMap); ok && mm.Reserve != nil && tr.depth == 0 && tr.ct != nil && tr.ct.MakeBound != nil && !tr.top.refute {
+			// the capacity hint of a map is allocated up front, like the capacity of a slice
+			hint := tr.val(mm.Reserve).L[0]
+			if hint.IntConst() == nil {
+				ctx := tr.calleeCtx(tr.fn, tr.params, nil, tr.entry, tr.entry)
+				bound := ctx.intTerm(tr.ct.MakeBound.E)
+				tr.vc.Oblige("allocbound", "", Implies(tr.st.Reach, Or(Lt(hint, Int(0)), Le(hint, bound))), tr.pos(mm.Pos()))
+			}
+		}
 		t := tr.vc.Fresh(tr.vname(x.(ssa.Value)), SInt)
 		tr.vc.Assume(Lt(Int(0), t))
 		tr.env[x.(ssa.Value)] = Val{T: x.(ssa.Value).Type(), L: []*Term{t}}
@@ -275,8 +284,14 @@ func (tr *FnTr) instr(in ssa.Instruction) {
 			if mt, ok := r.X.Type().Underlying().(*types.Map); ok {
 				// tuple (ok, key, value)
 				v := tr.env[x]
-				off := 1 + sizeOf(mt.Key())
-				tr.assumeMapVal(r.X, mt.Elem(), v.L[off:off+sizeOf(mt.Elem())], v.L[0])
+				// unused components of the tuple have an invalid type: locate the value by
+				// the tuple's own layout
+				if tp, ok := x.Type().(*types.Tuple); ok && tp.Len() == 3 && types.Identical(tp.At(2).Type(), mt.Elem()) {
+					off := tupleOffset(tp, 2)
+					if n := sizeOf(mt.Elem()); off+n <= len(v.L) {
+						tr.assumeMapVal(r.X, mt.Elem(), v.L[off:off+n], v.L[0])
+					}
+				}
 			}
 		}
 	case *ssa.MapUpdate:
@@ -323,11 +338,32 @@ func (tr *FnTr) assumeMapVal(m ssa.Value, elem types.Type, leaves []*Term, prese
 	if !ok || ld.Op != token.MUL {
 		return
 	}
-	g, ok := ld.X.(*ssa.Global)
-	if !ok || g.Pkg == nil {
+	var key string
+	switch a := ld.X.(type) {
+	case *ssa.Global:
+		if a.Pkg == nil {
+			return
+		}
+		key = a.Pkg.Pkg.Path() + "." + a.Name()
+	case *ssa.FieldAddr:
+		// a map held in a field of a named struct type: `mapval Type.Field: ...`
+		pt, ok := a.X.Type().Underlying().(*types.Pointer)
+		if !ok {
+			return
+		}
+		nt, ok := pt.Elem().(*types.Named)
+		if !ok || nt.Obj().Pkg() == nil {
+			return
+		}
+		st, ok := nt.Underlying().(*types.Struct)
+		if !ok {
+			return
+		}
+		key = nt.Obj().Pkg().Path() + "." + nt.Obj().Name() + "." + st.Field(a.Field).Name()
+	default:
 		return
 	}
-	mv, ok := tr.eng.mapvals[g.Pkg.Pkg.Path()+"."+g.Name()]
+	mv, ok := tr.eng.mapvals[key]
 	if !ok {
 		return
 	}
